@@ -78,7 +78,7 @@ CHECKS["C18"] = {
         {"re": r"fatal error: (runtime: )?(out of memory|cannot allocate memory)|runtime: out of memory|panic: runtime error: makeslice: len out of range",
          "also": [r"protoio\.\(\*(varintReader|uint32Reader)\)\.ReadMsg"], "identity": "process-crash/alloc-beyond-limit"},
     ],
-    "mandatory_labels": {"all": ["roundtrip/over-limit-frame-not-first", "roundtrip/multi-frame-chunked", "roundtrip/marshalTo-path", "roundtrip/destination-reused-for-a-shorter-frame", "hostile/bad-frame-not-first",
+    "mandatory_labels": {"all": ["roundtrip/over-limit-frame-not-first", "roundtrip/multi-frame-chunked", "roundtrip/marshalTo-path", "roundtrip/destination-reused-for-a-shorter-frame", "full/message-of-exactly-the-limit", "hostile/bad-frame-not-first",
                                  "hostile/hostile-length", "hostile/truncated", "hostile/overlong-varint", "chunking/exhaustive", "arbitrary"]},
 }
 
@@ -448,7 +448,7 @@ _ADDED6 = {
     "C03": "Forged entries also arrive by replication from a branch concurrent with the victim's history (a replica that merged nothing, Lamport time 1).",
     "C04": "Controlled schedules (DFS + rapid) of overlapping index passes of the writer's task and the replication task over a log that grows meanwhile (instrumented index; the final state must be the state of the entries held).",
     "C05": "Single transient datastore write or read failures while an announcement is registered, also a re-delivered one (an announced key must be usable). Distribution half: one device may deactivate the group after its activation and activate it again at the end (others join meanwhile).",
-    "C06": "Signatures ground against small-order keys. Two or three honest sessions between three accounts alive at once in one process, their frames delivered one at a time in generated interleavings (crossing requests included): all must complete.",
+    "C06": "Recorded responder frames replayed to a requester that asks for the same account again. Signatures ground against small-order keys. Two or three honest sessions between three accounts alive at once in one process, their frames delivered one at a time in generated interleavings (crossing requests included): all must complete.",
     "C07": "Contacts whose key is not a point of the curve.",
     "C08": "Group-context layer with an undecodable entry inside a delivered batch; the receiving device may be a second device of the sender's own account (multi-member group or account group); in a quarter of the cases the sender's announcement arrives while the receiver's activation is held in its catch-up.",
     "C09": "A further receiving device with a key window of 3 reads the envelopes in the order they were handed out (retrying after every success): every one of them must open in the end. `TestVerif_C09_TransientReadFailure`: between two bursts of sends a call touching the own chain-key record (share the key, record the group, send) meets failing reads.",
@@ -460,7 +460,7 @@ _ADDED6 = {
     "C15": "Priority counters over the whole uint64 range (the counter comes from the sender's header); bursts of 20-300 parked items followed by partial drains in both sequential machines.",
     "C16": "The controlled scheduler models sync.RWMutex writer preference (readers arriving after a waiting writer wait behind it); the peer cache scenarios add readers (GetPeersForTopics / GetPeers) next to updater and waiters. Tracker scenarios with two waiters of one group: the list handed to a waiter must read the same after other tasks ran.",
     "C17": "Marshaler histories also present a peer with a heads message it marshalled itself in the period before its last rotation (accepted during the grace period).",
-    "C18": "Round trips also read every frame of a type into the same destination object (the usual receive loop), with frames of length zero after longer ones.",
+    "C18": "Round trips also read every frame of a type into the same destination object (the usual receive loop), with frames of length zero after longer ones. `TestVerif_C18_FullPair`: the full writer / reader pair over a packet transport, messages up to exactly the limit.",
     "C19": "Odd groups (validly signed invitations with secrets of unusual length) joined and then used by the other requests.",
     "C20": "An older backup refused into an existing account followed by the current export. The genuine archive reaches the restore through readers that split it arbitrarily (half reads, 4096-byte pieces, single bytes).",
 }
